@@ -5,6 +5,7 @@ from concurrent.futures import Future
 from ..executors import Executors
 from ..common import copy_exception
 from ..metrics import track_future
+from ..map import MapFuture
 
 EXECUTOR = Executors.sync(name="internal")
 
@@ -74,6 +75,21 @@ def f_return_cancelled():
     f.cancel()
     f.set_running_or_notify_cancel()
     return f
+
+
+class OutputFuture(MapFuture):
+    # The future returned by functions combining several futures (f_zip,
+    # f_or, f_and...), resolved by those functions themselves.
+    #
+    # Unlike a plain Future, cancelling it notifies waiters, so that e.g.
+    # concurrent.futures.wait() is released when the output is cancelled.
+    def __init__(self):
+        super(OutputFuture, self).__init__(None)
+
+    def _me_cancel(self):
+        # There's no underlying work to cancel other than the inputs,
+        # which are cancelled via chain_cancel.
+        return True
 
 
 class WeakCallback(object):
